@@ -24,8 +24,22 @@ def evaluate(case, want_all=False):
     """Run both executions; return (divergence|None, exec_a, exec_b)."""
     ea = run(case["program"], case["a"]["schedule"], case["a"].get("width", "int64"))
     eb = run(case["program"], case["b"]["schedule"], case["b"].get("width", "int64"))
+    neutralise_text(case, ea, eb)
     d = first_divergence(ea, eb)
     return d, ea, eb
+
+
+def neutralise_text(case, ea, eb):
+    """Between two index-width configurations the *text* printed by repr/str is not compared (only whether
+    printing raised): C19 speaks of values, row lengths and element dtypes, and a printed form may
+    legitimately mention the index dtype."""
+    if case["a"].get("width", "int64") == case["b"].get("width", "int64"):
+        return
+    for i, st in enumerate(case["program"]):
+        if st["op"] == "read" and st.get("f") in ("repr", "str"):
+            for ex in (ea, eb):
+                if i < len(ex.out) and ex.out[i][0] == "ok":
+                    ex.out[i] = ["ok", "<text not compared across widths>"]
 
 
 def div_class(case, d):
